@@ -6,16 +6,20 @@ open Model
 open Glue
 open Scn
 
+(* watchdog: [timeout_s] seconds of CPU time of the run itself (independent of how loaded the
+   machine is) and a generous wall-clock limit for a run that blocks without computing *)
 let timeout_s = ref 30
+let wall_factor = 20
 
 (* run a scenario on the implementation in a forked process (crash isolation, clean state) *)
-let run_impl_isolated (sc : scenario) : (runres * string list) option =
+let run_impl_once (sc : scenario) (cpu_s : int) : (runres * string list) option * bool =
   let (rfd, wfd) = Unix.pipe () in
   flush stdout; flush stderr;
   match Unix.fork () with
   | 0 ->
     Unix.close rfd;
-    ignore (Unix.alarm !timeout_s);
+    ignore (Unix.setitimer Unix.ITIMER_PROF { Unix.it_interval = 0.; it_value = float_of_int cpu_s });
+    ignore (Unix.alarm (cpu_s * wall_factor));
     let res = Impl.run_impl sc in
     let oc = Unix.out_channel_of_descr wfd in
     Marshal.to_channel oc res []; flush oc; Unix._exit 0
@@ -24,8 +28,15 @@ let run_impl_isolated (sc : scenario) : (runres * string list) option =
     let ic = Unix.in_channel_of_descr rfd in
     let res = try Some (Marshal.from_channel ic : runres * string list) with _ -> None in
     close_in ic;
-    ignore (Unix.waitpid [] k);
-    res
+    let (_, st) = Unix.waitpid [] k in
+    let by_watchdog = (match st with Unix.WSIGNALED s -> s = Sys.sigalrm || s = Sys.sigprof | _ -> false) in
+    (res, by_watchdog)
+(* a run stopped by the watchdog is repeated once, alone on its core's time, with ten times the
+   budget, before it is reported: a slow machine must never look like a crash of the library *)
+let run_impl_isolated (sc : scenario) : (runres * string list) option =
+  match run_impl_once sc !timeout_s with
+  | (None, true) -> fst (run_impl_once sc (!timeout_s * 10))
+  | (r, _) -> r
 
 type verdict = {
   v_equal : bool;                 (* whole runs identical (diagnostic) *)
